@@ -64,6 +64,10 @@ pub struct FnSpec {
     /// evaluated a ruleset and propagated the outcome); 2 = the harness error under an anyhow context
     #[serde(default)]
     pub fail_style: u8,
+    /// dynamic `cacheable()`: when set, the function declares itself cacheable only until it has been
+    /// invoked this many times in the current evaluation, and non-cacheable afterwards
+    #[serde(default)]
+    pub cacheable_first: Option<u32>,
 }
 
 impl FnSpec {
@@ -78,6 +82,7 @@ impl FnSpec {
             mix_ordinal: false,
             fail_mod: 0,
             fail_style: 0,
+            cacheable_first: None,
         }
     }
 }
